@@ -2,9 +2,11 @@
 
    {"op":"world","socks":[…],
     "procs":[[pid, null | {"err":errno} | [[fd, {"s":inode} | {"o":hex} | {"e":errno} | null]…]]…],
-    "v6":bool,"ntop6":bool?,"supv6":bool?,"queries":[{"kind":str,"pid":null|n}…]}
+    "v6":bool,"ntop6":bool?,"supv6":bool?,"le":bool?,"queries":[{"kind":str,"pid":null|n}…]}
        errno = "ENOENT"|"ESRCH"|"EINVAL"|"ENAMETOOLONG"|"EACCES"|"EPERM"| number;
-       ntop6 = inet_ntop(AF_INET6) raises ValueError, supv6 = supports_ipv6()
+       ntop6 = inet_ntop(AF_INET6) raises ValueError, supv6 = supports_ipv6(),
+       le = _pslinux.LITTLE_ENDIAN of the (emulated) host: the kernel renderer and the model both use it
+            (default: the extracted value)
        → {"files":{name: hex|null}, "results":[{"model":…, "spec":…, "accepts":bool}…]}
      the world is rendered by the Lean kernel-side renderers (Spec), the model reads that.
    {"op":"raw","files":{name: hex|null},"procs":[[pid, null | [[fd, hex|null]…]]…],"queries":[…]}
@@ -122,25 +124,41 @@ def optBool (j : Json) (k : String) (dflt : Bool) : R Bool :=
   | .ok v => asBool v
   | .error _ => .ok dflt
 
-/-- does the specification speak about this query in this world? -/
+/-- no descriptor of the process fails at all (not even by vanishing) -/
+def ownAllRead (w : Spec.WorldE) (p : Nat) : Bool :=
+  match w.procs.lookup p with
+  | some (.ok fds) => fds.all fun x => match x.2 with
+      | .fail _ => false
+      | _ => true
+  | _ => false
+
+/-- does the specification speak about this query in this world?
+    * an unknown kind is a ValueError unconditionally ("before anything is read": `C11_unknown_kind_ValueError_E`);
+    * otherwise only inside `World.WF` (`C11_wf_iff`: TCP states 1..11, UNIX types ≤ 9, names without `\n` …);
+    * system-wide: every failure is of the "cannot be inspected" kind (`C11_scan_never_fails`; with `ntop6`:
+      `C11_noipv6_scan`); per process: own descriptors fail at most by vanishing (`C11_scan_process`) — and not at
+      all on an IPv6-less Python (that combination has no theorem: implementation vs model only);
+    * `inet_ntop` failing while `supports_ipv6()` is true: the specification is silent. -/
 def specified (w : Spec.WorldE) (ntop6 supv6 : Bool) (q : Spec.Query) : Bool :=
-  (!(ntop6 && supv6)) &&
-  (match q.pid with
-   | none => w.inspectable
-   | some p => Spec.ownClean w p)
+  !(Spec.kinds.contains q.kind) ||
+  (w.view.wf && (!(ntop6 && supv6)) &&
+   (match q.pid with
+    | none => w.inspectable
+    | some p => Spec.ownClean w p && (!ntop6 || ownAllRead w p)))
 
 def handle (_ : Unit) (j : Json) : R (Unit × Json) := do
   let op ← strF j "op"
   let qs ← listF parseQuery j "queries"
   let ntop6 ← optBool j "ntop6" false
   let supv6 ← optBool j "supv6" true
-  let c : Cfg := { cfg with ntop6Fails := ntop6, supportsV6 := supv6 }
+  let le ← optBool j "le" cfg.littleEndian
+  let c : Cfg := { cfg with littleEndian := le, ntop6Fails := ntop6, supportsV6 := supv6 }
   if op == "world" then
     let socks ← listF parseSock j "socks"
     let procs ← listF (parsePair asNat (parseListing parseTarget)) j "procs"
     let v6 ← boolF j "v6"
     let w : Spec.WorldE := { socks := socks, procs := procs, v6 := v6 }
-    let fs := Spec.renderWorldE cfg.littleEndian w
+    let fs := Spec.renderWorldE le w
     let files := jObj (netNames.map fun n => (n, jOpt jBytes (fs.net n)))
     -- what the promise is about: the inspectable part of the world; without IPv6 text support,
     -- minus the sockets whose row needs one
